@@ -7,3 +7,6 @@ import SPProofs.Logic.Lemmas
 import SPProofs.Properties.C11
 import SPProofs.Comb.Lemmas
 import SPProofs.Properties.C13
+import SPProofs.Text.Lemmas
+import SPProofs.Properties.C27
+import SPProofs.Properties.C28
